@@ -20,7 +20,7 @@ def T0 : Nat := NU
 def regionInit : Nat → List Nat
   | 0 => [97, 98, 0]                    -- literal "ab"
   | 1 => [32, 97, 47, 66, 32, 0]        -- literal " a/B "
-  | 2 => [97, 98, 47, 32, 0xEE]         -- attached "ab/ " + guard (not NUL)
+  | 2 => [97, 98, 47, 32, 48, 0xEE]     -- attached "ab/ 0" + guard (not NUL)
   | 3 => [98, 32, 97, 0]                -- attached "b a" + guard NUL
   | _ => []
 
